@@ -5,6 +5,7 @@ CONSTANTS
   ArgSets <- ArgSetsSim
   HdrPorts <- Ports16
   HdrChans <- Chans4
+  PlatPackets <- PlatSim
   Links <- LinksBoth
   Cap = 1
   Chained = FALSE
